@@ -113,6 +113,8 @@ def show(t):
         return {"mul": "Π", "add": "Σ", "kron": "⊗", "ksum": "⊕", "bdiag": "bdiag"}[t[1]] + f"[{sign}{show(t[3])} for M in {t[4]}]"
     if k == "fn":
         return f"{t[1]}({show(t[2])})"
+    if k == "famrange":
+        return {"mul": "Π", "add": "Σ", "kron": "⊗", "ksum": "⊕", "bdiag": "bdiag"}.get(t[1], t[1]) + f"[{show(t[2])} for M in {t[3]}[{t[4] or ''}:{'' if t[5] is None else t[5]}]]"
     if k == "smul":
         return "*".join(show(x) for x in t[1])
     if k == "sadd":
@@ -315,7 +317,12 @@ def norm(t, hyp=frozenset()):
                 out += list(x[1])
             else:
                 out.append(x)
+        out = _merge_ranges(k, out)
+        if len(out) == 1 and out[0][0] == "fam":
+            return norm(out[0], hyp)
         return (k, tuple(out))
+    if k == "famrange":
+        return t
     if k == "bdiag":
         return ("bdiag", tuple(norm(x, hyp) for x in t[1])) + t[2:]
     if k == "fam":
@@ -533,6 +540,37 @@ def equal(got, want, hyp=frozenset(), defs=None):
     return res
 
 
+def _splice(kind, fl):
+    """a part list spliced into an n-ary constructor: the whole family, or a contiguous range of it (head / tail idioms)"""
+    if len(fl) == 5:
+        return ("famrange", kind, fl[2], fl[3], fl[4][0], fl[4][1])
+    return ("famsplice", kind, fl[1], fl[2], fl[3])
+
+
+def _merge_ranges(kind, xs):
+    """[M_0, *Ms[1:]] = [*Ms[:-1], M_-1] = [*Ms[:k], *Ms[k:]] = the whole family (associativity of the n-ary constructors)"""
+    xs = list(xs)
+    changed = True
+    while changed:
+        changed = False
+        for i in range(len(xs) - 1):
+            a, b = xs[i], xs[i + 1]
+            new = None
+            if a[0] == "elt" and b[0] == "famrange" and b[1] == kind and b[2] == VAR and a[1] == b[3] and a[2] == b[4] - 1 and a[2] >= 0:
+                new = ("famrange", kind, VAR, b[3], a[2], b[5])
+            elif a[0] == "famrange" and b[0] == "elt" and a[1] == kind and a[2] == VAR and b[1] == a[3] and a[5] is not None and a[5] < 0 and b[2] == a[5]:
+                new = ("famrange", kind, VAR, a[3], a[4], (a[5] + 1) or None)
+            elif a[0] == "famrange" and b[0] == "famrange" and a[1:4] == b[1:4] and a[5] is not None and a[5] == b[4]:
+                new = ("famrange", kind, a[2], a[3], a[4], b[5])
+            if new is not None:
+                if new[4] == 0 and new[5] is None:
+                    new = ("fam", kind, 1, new[2], new[3])
+                xs[i:i + 2] = [new]
+                changed = True
+                break
+    return xs
+
+
 # ------------------------------------------------------------------ evaluation of expressions
 class TermEval(AbsInt):
     """maps Python expressions of rule bodies / product methods to terms"""
@@ -620,6 +658,21 @@ class TermEval(AbsInt):
                 return ("famlist", -base[1], base[2], base[3])
             if isinstance(sl, ast.Constant) and isinstance(sl.value, int):
                 return ("elt", base[3], sl.value)
+            if isinstance(sl, ast.UnaryOp) and isinstance(sl.op, ast.USub) and isinstance(sl.operand, ast.Constant) and isinstance(sl.operand.value, int) and len(base) == 4:
+                return ("elt", base[3], -sl.operand.value)
+            if isinstance(sl, ast.Slice) and sl.step is None and base[1] == 1 and len(base) == 4:
+                # head / tail of the part list: A.Ms[1:], A.Ms[:-1] -- a contiguous range with constant bounds
+                def bound(b):
+                    if b is None:
+                        return None
+                    if isinstance(b, ast.Constant) and isinstance(b.value, int):
+                        return b.value
+                    if isinstance(b, ast.UnaryOp) and isinstance(b.op, ast.USub) and isinstance(b.operand, ast.Constant) and isinstance(b.operand.value, int):
+                        return -b.operand.value
+                    return "?"
+                lo, hi = bound(sl.lower), bound(sl.upper)
+                if lo != "?" and hi != "?" and (lo is None or lo >= 0) and (hi is None or hi < 0 or lo is None):
+                    return ("famlist", 1, base[2], base[3], (lo or 0, hi))
         if base[0] == "tuple" and isinstance(sl, ast.Constant) and isinstance(sl.value, int):
             return self.index(base, sl.value)
         if base[0] == "list" and isinstance(sl, ast.Constant) and isinstance(sl.value, int):
@@ -820,12 +873,14 @@ class TermEval(AbsInt):
             v = elems[0][1]
             out = []
             for a in alternatives(v):
-                if a[0] == "famlist":
+                if a[0] == "famlist" and len(a) == 5:
+                    out.append(_splice(kind, a))
+                elif a[0] == "famlist":
                     out.append(("fam", kind, a[1], a[2], a[3]) + ((show(kwargs["multiplicities"]), ) if kind == "bdiag" and "multiplicities" in kwargs else ()))
                 elif a[0] == "list":
                     out.append((kind, tuple(a[1])))
                 elif a[0] == "catlist":
-                    out.append((kind, tuple(("famsplice", kind, p[1], p[2], p[3]) if p[0] == "famlist" else p for p in a[1])))
+                    out.append((kind, tuple(_splice(kind, p) if p[0] == "famlist" else p for p in a[1])))
                 else:
                     out.append(("opaque", f"*{show(a)}"))
             return self.join(out)
@@ -836,9 +891,9 @@ class TermEval(AbsInt):
                 if v[0] == "list":
                     xs += list(v[1])
                 elif v[0] == "famlist":
-                    xs.append(("famsplice", kind, v[1], v[2], v[3]))
+                    xs.append(_splice(kind, v))
                 elif v[0] == "catlist":
-                    xs += [("famsplice", kind, p[1], p[2], p[3]) if p[0] == "famlist" else p for p in v[1]]
+                    xs += [_splice(kind, p) if p[0] == "famlist" else p for p in v[1]]
                 else:
                     xs.append(("opaque", "*args"))
             else:
